@@ -478,9 +478,16 @@ class GateStream(Stream):
             q["s"] = {"prefix": s[:-1], "longer": s + "x", "upper": s.swapcase(), "empty": ""}[sv]
         if "__debugger__" in q:
             q["__debugger__"] = case["dbg"]
-        res = rig.request(path, q, host, case["cookie"])
-        code = g.classify(res)
-        trusted = rig.app.check_host_trust({"HTTP_HOST": host} if host is not None else {})
+        try:
+            res = rig.request(path, q, host, case["cookie"])
+            code = g.classify(res)
+        except Exception as e:  # noqa: BLE001 - "any other failure" is an observation, not a harness error
+            res = {"status": None, "body": b"", "eval_calls": [], "inner_ran": False, "logs": [], "set_cookie": [], "exc": type(e).__name__}
+            code = g.OUT_ODD
+        try:
+            trusted = rig.app.check_host_trust({"HTTP_HOST": host} if host is not None else {})
+        except Exception:  # noqa: BLE001
+            trusted = False
         return code, before, int(rig.app._failed_pin_auth.value), trusted, res
 
     def real(self, case):
@@ -514,6 +521,8 @@ class GateStream(Stream):
         secret_ok = case["secret"] == "right"
         pin_ok = (not case["pin"]) or case["cookie"] == "valid"
         if code == g.OUT_ODD:
+            if res.get("exc"):
+                return f"the debugger raised {res['exc']} instead of answering or refusing with SecurityError"
             return f"unclassifiable answer (status {res['status']}): neither a gate's answer, nor SecurityError, nor the application"
         if res["eval_calls"] and not (case["evalex"] and host_ok and secret_ok and case["frame"] == "known" and pin_ok):
             return "code was evaluated in a frame without evalex + trusted Host + secret + known frame + valid PIN cookie"
